@@ -86,6 +86,7 @@ def conds_streamWS_RecvMsg : List String := [
    "if s.recvN == 1",
    "if err := s.params.set(args); err != nil",
    "return err",
+   "if sh := s.stats; sh != nil",
    "return nil"
   ]
 
